@@ -836,6 +836,7 @@ func (d *c05Run) pmtGetters(pm psi.PMT) bool {
 		_ = pm.String()
 		for _, es := range pm.ElementaryStreams() {
 			es.StreamType()
+			psi.LookupPmtStreamType(es.StreamType())
 			es.StreamTypeDescription()
 			es.IsStreamWherePresentationLagsEbp()
 			es.IsAudioContent()
@@ -1164,6 +1165,7 @@ func (d *c05Run) ebpBytes(eb []byte) bool {
 		bp.EBPType()
 		bp.IsEmpty()
 		bp.StreamSyncSignal()
+		bp.EBPSuccessReadTime()
 		_ = fmt.Sprintf("%+v", bp)
 		enc := bp.Data()
 		if len(enc) > 0 {
@@ -1193,6 +1195,9 @@ func (d *c05Run) pesStage(pkt *packet.Packet) bool {
 func (d *c05Run) pesBytes(hb []byte) bool {
 	var ph pes.PESHeader
 	var err error
+	if !d.ro("pes.ExtractTime", hb, func() { pes.ExtractTime(hb); pes.CheckLength(hb, "x", len(hb)+1) }) {
+		return false
+	}
 	if !d.ro("pes.NewPESHeader", hb, func() { ph, err = pes.NewPESHeader(hb) }) {
 		return false
 	}
